@@ -14,29 +14,39 @@ ASSUMPTIONS = ["reference containers slist_ref / szvp_ref / asvp_ref (real ones 
 def sendquery_jobs(tier):
     J = []
     for nsrv in (1, 2):
-      for usevc in (0, 1):
-        for existing in (0, 1, 2):
-          for sibling in (0, 1):
-            if sibling and not existing:
-                continue
-            if existing == 1 and usevc:
-                continue  # a UDP connection is irrelevant to a TCP-only channel
-            J.append(dict(name="sendquery_srv%d_vc%d_ex%d_sib%d" % (nsrv, usevc, existing, sibling),
-                      harness="../machine/sendquery.c",
-                      defines=["-DNSRV=%d" % nsrv, "-DUSEVC=%d" % usevc, "-DEXISTING=%d" % existing, "-DSIBLING=%d" % sibling],
-                      real=LIB, support=SUP, unwind=8, backend="cadical", timeout=2400, mem_gb=16,
-                      replace=["ares_requeue_query"], replace_with=["rq_stub.c"],
-                      unwindset=["ares_send_query:2", "ares_requeue_query:4", "end_query:3", "ares_close_connection:3",
-                                 "handle_conn_error:3", "ares_cancel:3", "M_user_cb:3", "ares_free_query:4",
-                                 "ares_cancel.0:4", "ares_htable_szvp_get.0:5", "ares_htable_szvp_remove.0:5",
-                                 "ares_htable_szvp_insert.0:5", "ares_htable_szvp_insert.1:5", "ares_htable_asvp_get.0:7",
-                                 "ares_htable_asvp_remove.0:7", "ares_htable_asvp_insert.0:7", "ares_htable_asvp_insert.1:7",
-                                 "ares_requeue_queries.0:3", "ares_llist_clear.0:4", "memcpy.0:30", "memset.0:30"],
-                      witnesses=["end"],
-                      bound="ONE level of ares_send_query (nested requeue = contract stub) on %d server(s) with failure counters 0..2, tries 1..2, udp_max_queries 0..2, "
-                            "rotate on/off, USEVC=%d, existing connection to the best server: %s, sibling request on it: %d; "
-                            "every socket, cookie and serialisation failure; callbacks may re-enter ares_cancel (depth 1); "
-                            "then a final ares_cancel" % (nsrv, usevc, ["none", "UDP (use count 0..3)", "TCP"][existing], sibling)))
+        for usevc in (0, 1):
+            for existing in (0, 1, 2):
+                for sibling in (0, 1):
+                    for pre in (0, 1):
+                        if sibling and not existing:
+                            continue
+                        if existing == 1 and usevc:
+                            continue  # a UDP connection is irrelevant to a TCP-only channel
+                        if sibling and existing == 2 and not usevc:
+                            continue  # the request would not use the TCP connection its sibling is on
+                        if pre and (not existing or sibling or nsrv == 2):
+                            continue
+                        if pre and existing == 2 and not usevc:
+                            continue
+                        J.append(dict(
+                            name="sendquery_srv%d_vc%d_ex%d_sib%d%s" % (nsrv, usevc, existing, sibling, "_pre" if pre else ""),
+                            harness="../machine/sendquery.c",
+                            defines=["-DNSRV=%d" % nsrv, "-DUSEVC=%d" % usevc, "-DEXISTING=%d" % existing,
+                                     "-DSIBLING=%d" % sibling, "-DPREATTACHED=%d" % pre],
+                            real=LIB, support=SUP, unwind=8, backend="cadical", timeout=2400, mem_gb=16,
+                            replace=["ares_requeue_query"], replace_with=["rq_stub.c"],
+                            unwindset=["ares_send_query:2", "ares_requeue_query:4", "end_query:3", "ares_close_connection:3",
+                                       "handle_conn_error:3", "ares_cancel:3", "M_user_cb:3", "ares_free_query:4",
+                                       "ares_cancel.0:4", "ares_htable_szvp_get.0:5", "ares_htable_szvp_remove.0:5",
+                                       "ares_htable_szvp_insert.0:5", "ares_htable_szvp_insert.1:5", "ares_htable_asvp_get.0:7",
+                                       "ares_htable_asvp_remove.0:7", "ares_htable_asvp_insert.0:7", "ares_htable_asvp_insert.1:7",
+                                       "ares_requeue_queries.0:3", "ares_llist_clear.0:4", "memcpy.0:30", "memset.0:30"],
+                            witnesses=["end"],
+                            bound="ONE level of ares_send_query (nested requeue = contract stub) on %d server(s) with failure "
+                                  "counters 0..2, tries 1..3, udp_max_queries 0..2, rotate on/off, USEVC=%d, existing connection to "
+                                  "the best server: %s, sibling request on it: %d, request already in flight on it: %d; every socket, "
+                                  "cookie and serialisation failure; sibling callbacks may re-enter ares_cancel (depth 1)"
+                                  % (nsrv, usevc, ["none", "UDP (use count 0..3)", "TCP"][existing], sibling, pre)))
     return J
 
 UW = ["end_query:3", "ares_close_connection:3", "handle_conn_error:3", "ares_cancel:3", "M_user_cb:3", "ares_free_query:4",
